@@ -75,7 +75,6 @@ package memfs
 //@   requires w.fs != nil
 //@   at_call Filespace.*,NewFilespaceWrapper requires Confined(w.basePath, $arg)
 
-
 //@ type FilespaceWrapper
 //@   field basePath immutable
 //@   field fs immutable
